@@ -43,7 +43,7 @@ type histOp struct {
 
 var c12Roots = []string{"/a", "/b", "/a/b", "/", "/c/{v}"}
 var c12Plain = []string{"/static/", "/h"}
-var c12Subs = []string{"/x", "/{id}", "/x/{id}", "/y", "", "/{id}/z"}
+var c12Subs = []string{"/x", "/{id}", "/x/{id}", "/y", "", "/{id}/z", "/w/{rest:*}"}
 
 func genC12(x *Ctx) *c12Scen {
 	tp := x.Tape
